@@ -303,7 +303,14 @@ DRIVER_OVERRIDE = None
 
 
 def _run_driver(case_path, ans_path):
-    p = subprocess.run([DRIVER_OVERRIDE or driver_path(), case_path, ans_path], capture_output=True, text=True, errors="replace")
+    # the model is total and fuel-bounded; the timeout only guards against a pathological case list so that no
+    # orphan driver process survives a check that is interrupted
+    limit = int(os.environ.get("VERIF_DRIVER_TIMEOUT", "3600"))
+    try:
+        p = subprocess.run([DRIVER_OVERRIDE or driver_path(), case_path, ans_path], capture_output=True, text=True, errors="replace", timeout=limit)
+    except subprocess.TimeoutExpired as e:
+        out = e.stdout.decode("utf-8", "replace") if isinstance(e.stdout, bytes) else (e.stdout or "")
+        p = subprocess.CompletedProcess(e.cmd, 124, out, f"driver timed out after {limit} s")
     res = []
     for l in p.stdout.split("\n"):
         if not l.strip():
